@@ -2,12 +2,16 @@ use crate::core::Ctx;
 pub mod c01;
 pub mod c02;
 pub mod c03;
+pub mod c14;
+pub mod c15;
 
 pub fn dispatch(ctx: &Ctx) -> i32 {
     match ctx.id {
         "C01" => c01::run(ctx),
         "C02" => c02::run(ctx),
         "C03" => c03::run(ctx),
+        "C14" => c14::run(ctx),
+        "C15" => c15::run(ctx),
         other => {
             println!("INCONCLUSIVE property={other} reason=no monitor with this id");
             2
